@@ -12,7 +12,7 @@ use std::collections::VecDeque;
 //@@ TYPE src/check/constrain/constraint/iterator.rs | struct | Constraints | pubfields
 
 //@@ TYPE src/check/constrain/constraint/expected.rs | enum | Expect
-use crate::Expect::Type;
+use crate::Expect::{Access, Expression, Function, Type};
 
 // opaque stand-ins
 #[derive(Clone, Debug, PartialEq, Eq, Hash)]
@@ -22,6 +22,7 @@ pub struct StringName { _x: u8 }
 #[derive(Clone, Debug, PartialEq, Eq, Hash)]
 pub struct Name { _x: u8 }
 pub struct Context { _x: u8 }
+#[derive(Clone)]
 pub struct Finished { _x: u8 }
 pub struct ClassUnion { _x: u8 }
 pub struct TypeErr { _x: u8 }
@@ -99,6 +100,19 @@ pub uninterp spec fn name_sup(sup: Name, sub: Name, ctx: Context) -> Option<bool
 pub uninterp spec fn name_any() -> Name;
 
 pub assume_specification[<Name as PartialEq>::eq](a: &Name, b: &Name) -> (r: bool) ensures r == (*a == *b);
+/// A-ARITH: `total + 1` where total counts constraints ever queued: cannot reach 2^64 (each constraint occupies memory)
+#[verifier::external_body]
+pub fn verif_assumed_succ(total: usize) -> (r: usize) ensures r == total + 1 { unimplemented!() }
+/// A-REINSERT: the call of link::reinsert from unify_link's default arm.  reinsert itself is verified above under the
+/// precondition `queue length <= total` (its trace line computes `total - constr.len()` unguarded); whether that
+/// holds at this call site is NOT established (no witness program reaches the arm with a longer queue either).
+#[verifier::external_body]
+pub fn verif_assumed_reinsert(constr: &mut Constraints, constraint: &Constraint, total: usize) -> (r: Unified<()>)
+    ensures r is Err ==> r->Err_0@.len() >= 1,
+{ unimplemented!() }
+/// outline of `left == right` on `&Expect` operands in a match guard (derived PartialEq structural, A-DERIVE)
+#[verifier::external_body]
+pub fn verif_outline_expect_eq(a: &Expect, b: &Expect) -> (r: bool) ensures r == (*a == *b) { unimplemented!() }
 /// outline of `x == &Name::any()` (reference-to-reference `==`; derived PartialEq of Name is structural, A-DERIVE)
 #[verifier::external_body]
 pub fn verif_outline_name_eq(a: &Name, b: &Name) -> (r: bool) ensures r == (*a == *b) { unimplemented!() }
@@ -122,9 +136,20 @@ impl Context {
 impl TypeErr {
     #[verifier::external_body] pub fn with_cause(self, msg: &str, pos: Position) -> TypeErr { unimplemented!() }
 }
-/// the rest of unification (recursive through unify_link): A-EXT, every Err carries a diagnostic
+impl Finished {
+    #[verifier::external_body]
+    pub fn push_ty(&mut self, ctx: &Context, pos: Position, expected: &Expected, name: &Name) -> (r: TypeResult<()>)
+        ensures r is Err ==> r->Err_0@.len() >= 1,
+    { unimplemented!() }
+}
+pub assume_specification[<Finished as Clone>::clone](t: &Finished) -> (r: Finished) ensures r == *t;
+pub assume_specification[<Expect as PartialEq>::eq](a: &Expect, b: &Expect) -> (r: bool) ensures r == (*a == *b);
 #[verifier::external_body]
-pub fn unify_link(constraints: &mut Constraints, finished: &mut Finished, ctx: &Context, total: usize) -> (r: Unified<Finished>)
+pub fn unify_function(constraint: &Constraint, constraints: &mut Constraints, finished: &mut Finished, ctx: &Context, total: usize) -> (r: Unified<Finished>)
+    ensures r is Err ==> r->Err_0@.len() >= 1,
+{ unimplemented!() }
+#[verifier::external_body]
+pub fn sub(constraints: &mut Constraints, new: &Expected, old: &Expected, offset: usize, total: usize) -> (r: Unified<()>)
     ensures r is Err ==> r->Err_0@.len() >= 1,
 { unimplemented!() }
 #[verifier::external_body]
@@ -150,6 +175,7 @@ pub open spec fn accept_justified(c: Constraint, ctx: Context) -> bool {
     ensures r@.len() == 1,                                                       //# mismatch_message_is_one_diagnostic [C19,C06]
 //@@ END
 
+#[verifier::exec_allows_no_decreases_clause]
 //@@ FN src/check/constrain/unify/ty.rs | free | unify_type | props=C06,C03
 //@@ OUTLINE
 //@@< l_ty == &Name::any()
@@ -169,6 +195,23 @@ pub open spec fn accept_justified(c: Constraint, ctx: Context) -> bool {
         r is Ok ==> accept_justified(*constraint, *ctx),                          //# accepted_only_if_supertype_or_any [C06,C20]
         // C19 "every rejection carries at least one diagnostic"
         r is Err ==> r->Err_0@.len() >= 1,                                       //# rejection_carries_a_diagnostic [C19,C06]
+//@@ END
+
+// unify_link: the dispatcher of unification.  Termination is NOT proved (the recursion is on the queue contents
+// through callees outside reach): #[verifier::exec_allows_no_decreases_clause]; stated as an assumption.
+#[verifier::exec_allows_no_decreases_clause]
+//@@ FN src/check/constrain/unify/link.rs | free | unify_link | props=C19,C03
+//@@ OUTLINE
+//@@< unify_link(constraints, finished, ctx, total + 1)
+//@@> unify_link(constraints, finished, ctx, verif_assumed_succ(total))
+//@@ OUTLINE
+//@@< reinsert(constraints, constraint, total)?
+//@@> verif_assumed_reinsert(constraints, constraint, total)?
+//@@ OUTLINE
+//@@< (left, right) if left == right =>
+//@@> (left, right) if verif_outline_expect_eq(left, right) =>
+    ensures
+        r is Err ==> r->Err_0@.len() >= 1,                                       //# rejection_carries_a_diagnostic [C19]
 //@@ END
 
 /// C03: along any sequence of re-insertions of one constraint, at most one succeeds — the second attempt sees
